@@ -114,6 +114,9 @@ pub fn exec(func: &str, a: &mut Args) -> String {
         "clip_seg_seg" => { let s1 = (d2::p(a), d2::p(a)); let s2 = (d2::p(a), d2::p(a));
             match crate::p2::query::details::clip_segment_segment(s1, s2) { None => "none".into(),
                 Some((ca, cb)) => format!("some {} {} {} {} {} {} {} {}", d2::fp(&ca.0), d2::fp(&ca.1), ca.2, ca.3, d2::fp(&cb.0), d2::fp(&cb.1), cb.2, cb.3) } }
+        "clip_seg_seg_n" => { let s1 = (d2::p(a), d2::p(a)); let s2 = (d2::p(a), d2::p(a)); let n = d2::v(a);
+            match crate::p2::query::details::clip_segment_segment_with_normal(s1, s2, n) { None => "none".into(),
+                Some((ca, cb)) => format!("some {} {} {} {} {} {} {} {}", d2::fp(&ca.0), d2::fp(&ca.1), ca.2, ca.3, d2::fp(&cb.0), d2::fp(&cb.1), cb.2, cb.3) } }
         "tm_split" => { let m = mesh(a); let n = d3::v(a); let bias = a.f(); let eps = a.f();
             match m.local_split(&Unit::new_unchecked(n), bias, eps) {
                 SplitResult::Negative => "neg".into(), SplitResult::Positive => "pos".into(),
@@ -620,6 +623,14 @@ pub fn gen(r: &mut Rng, thorough: bool) -> Vec<(String, String)> {
             if r.bool() { core::mem::swap(&mut a2, &mut b2); }
             if r.below(8) == 0 { a2 = d2::gen_p(r, lat, 8.0); b2 = d2::gen_p(r, lat, 8.0); }
             v.push(("clip_seg_seg".into(), format!("{} {} {} {}", d2::hp(&a1), d2::hp(&b1), d2::hp(&a2), d2::hp(&b2))));
+            // `clip_segment_segment_with_normal`: same pairs; the normal is the left normal of seg1 (the caller's convention:
+            // tangent = seg1 direction), an axis, a lattice / random vector (non-unit, sometimes zero), or the normal of seg2
+            let d1 = b1 - a1;
+            let nn = match it % 6 { 0 => d2::Vector::new(d1.y, -d1.x), 1 => d2::Vector::new(-d1.y, d1.x) / d1.norm().max(1e-3),
+                2 => *[d2::Vector::new(0.0, 1.0), d2::Vector::new(1.0, 0.0), d2::Vector::new(0.0, -1.0), d2::Vector::zeros()].get((it / 6) % 4).unwrap(),
+                3 => { let d = b2 - a2; d2::Vector::new(d.y, -d.x) }
+                _ => nrm * if lat { 2.0 } else { 1.0 } };
+            v.push(("clip_seg_seg_n".into(), format!("{} {} {} {} {}", d2::hp(&a1), d2::hp(&b1), d2::hp(&a2), d2::hp(&b2), d2::hv(&nn))));
         }
 
         // ---- TriMesh split / plane section (oracle-only): planes through vertices, along edges, generic; bias sweep
